@@ -314,6 +314,14 @@ def render(d, line0=0):
     pre = ''.join(x + '\n' for x in d.get('pre_attrs') or [])
     post = ''.join(x + '\n' for x in d.get('post_attrs') or [])
     wh = ' ' + d['where'] if d.get('where') else ''
+    if d.get('in_fn'):
+        # the declaration sits in a function body (the generated module is a block-local item)
+        body = f"{render_attr(d, line0 + 1)}\n{vis}struct {d['name']}{g}({d['inner']});"
+        return f"pub fn holder_{d['name'].lower()}() {{\n{body}\n}}\n"
+    if d.get('in_mod'):
+        # ... or in a nested module, with a visibility relative to it
+        body = f"{render_attr(d, line0 + 2)}\n{vis}struct {d['name']}{g}({d['inner']});"
+        return f"pub mod holder_{d['name'].lower()} {{\n    use super::*;\n{body}\n}}\n"
     if d.get('via_macro_ty'):
         # the inner type arrives as a `$t:ty` fragment (an invisible group around the type)
         body = f"{render_attr(d, line0 + 2)}\n{vis}struct {d['name']}{g}($t);"
@@ -1355,6 +1363,15 @@ def build(tier='quick', seed=0):
                   via_macro_ty=True))
     full.append(X(decl('float', 'f64', validators=[V('finite'), V('greater_or_equal', '0.0', 0.0, 'lit')], derives=['Debug', 'Clone', 'Copy', 'PartialEq', 'Eq', 'PartialOrd', 'Ord', 'TryFrom'],
                        tags=['via-macro']), via_macro_ty=True))
+    # unusual places: a function body, a nested module with restricted visibility
+    for fam, t, vs, sn in (('int', 'i32', [V('greater', '0', 0, 'lit'), V('less', 'K_I32 * 2', K * 2, 'expr')], []),
+                           ('string', 'String', [V('not_empty'), V('len_char_max', 'MAXLEN', MAXLEN, 'expr')], [S('trim')]),
+                           ('float', 'f64', [V('finite'), V('greater_or_equal', '0.0', 0.0, 'lit')], [])):
+        ds_ = ['Debug', 'Clone', 'PartialEq', 'TryFrom', 'FromStr', 'Display', 'AsRef', 'Deserialize', 'Serialize']
+        full.append(X(decl(fam, t, sanitizers=sn, validators=vs, derives=ds_, vis='', tags=['place']), in_fn=True))
+        full.append(X(decl(fam, t, sanitizers=sn, validators=vs, derives=ds_, vis='pub', tags=['place']), in_fn=True))
+        for vis_ in ('pub(super)', 'pub(crate)', 'pub', ''):
+            full.append(X(decl(fam, t, sanitizers=sn, validators=vs, derives=ds_, vis=vis_, tags=['place']), in_mod=True))
     # Arbitrary next to a validation the generator knows nothing about (refused by the pinned tree; if a tree accepts it,
     # the generator cannot know which values are valid)
     for fam, t in (('int', 'i64'), ('int', 'u8'), ('float', 'f64'), ('string', 'String')):
